@@ -52,6 +52,19 @@ def deletion(st, skel, n, flag):
     run_prop(st, "authentication_kept_when_asked", S.authentication_kept_when_asked, u)
     run_prop(st, "fragment_kept_when_asked", S.fragment_kept_when_asked, u)
     run_prop(st, "subdomains_kept_when_asked", S.subdomains_kept_when_asked, u)
+    run_prop(st, "amp_items_kept_when_asked", S.amp_items_kept_when_asked, u)
+    run_prop(st, "query_items_are_a_subset_with_repair", S.query_items_are_a_subset_with_repair, u)
+
+
+QUERIES = [("amp-item", "http://x.fr/p?amp=1&", "=2&id=7"), ("amp-key", "http://x.fr/p?a=1&amp", "=2"), ("amp-entity", "http://x.fr/p?q=1&amp", "b=2&ampere=3")]
+
+
+def queries(st, i, n, flag):
+    name, pre, post = QUERIES[i]
+    u = cat(pre, sym_str(st, "s", n), post)
+    run_prop(st, "query_items_are_a_subset", S.query_items_are_a_subset, u, flag)
+    run_prop(st, "amp_items_kept_when_asked", S.amp_items_kept_when_asked, u)
+    run_prop(st, "query_items_are_a_subset_with_repair", S.query_items_are_a_subset_with_repair, u)
 
 
 HOSTS = [("host-hyphen", "http://forum", ".example.com/"), ("host-label", "http://a.", "x.fr/p"), ("host-amp", "https://amp", "x.fr/")]
@@ -102,6 +115,12 @@ def items(tier):
         for n in range(0, (2 if quick else 3) + 1):
             flag = bool((n + i) % 2)
             it = {"fn": "deletion", "params": {"skel": i, "n": n, "flag": flag}, "name": "deletion %s n=%d" % (SKELETONS[i][0], n), "weight": 8 ** n}
+            if n >= 2:
+                it["defer_depth"] = 8
+            out.append(it)
+    for i in range(len(QUERIES)):
+        for n in range(0, (2 if quick else 3) + 1):
+            it = {"fn": "queries", "params": {"i": i, "n": n, "flag": bool(n % 2)}, "name": "%s n=%d" % (QUERIES[i][0], n), "weight": 8 ** n}
             if n >= 2:
                 it["defer_depth"] = 8
             out.append(it)
